@@ -1,4 +1,4 @@
-package c11
+package chainx
 
 import (
 	"errors"
@@ -12,7 +12,7 @@ import (
 	"github.com/youchainhq/go-youchain/params"
 )
 
-// stubUcon implements consensus.Engine AND consensus.Ucon so that the
+// StubUcon implements consensus.Engine AND consensus.Ucon so that the
 // Ucon-only import paths of BlockChain run (ErrExistCanonical ->
 // insertSidechain -> verifyAllSideChainBlocks -> reorg).  Its header check
 // reproduces exactly the structural outcomes of ucon's verifyCascadingFields
@@ -21,23 +21,25 @@ import (
 // that blocks with an invalid seal exist in the tree.  VerifyHeaders has the
 // channel shape of ucon's (buffered abort; results in input order; the earlier
 // headers of the batch passed as parents).
-type stubUcon struct {
+type StubUcon struct {
 	*solo.Solo
 }
 
 var errBadSeal = errors.New("invalid sealer")
 
-const badSealMark = 0xBD
+// BadSealMark in header.Extra[0] marks an invalid seal.
+const BadSealMark = 0xBD
 
-func newStub() *stubUcon {
-	s := &stubUcon{solo.NewSolo()}
+// NewStubUcon returns the engine (sealer mode on).
+func NewStubUcon() *StubUcon {
+	s := &StubUcon{solo.NewSolo()}
 	s.Solo.Update(true, 0, 1)
 	return s
 }
 
-func sealOK(h *types.Header) bool { return !(len(h.Extra) > 0 && h.Extra[0] == badSealMark) }
+func sealOK(h *types.Header) bool { return !(len(h.Extra) > 0 && h.Extra[0] == BadSealMark) }
 
-func (s *stubUcon) verify(chain consensus.ChainReader, header *types.Header, parents []*types.Header, seal bool) error {
+func (s *StubUcon) verify(chain consensus.ChainReader, header *types.Header, parents []*types.Header, seal bool) error {
 	if header.Number == nil {
 		return errors.New("unknown block")
 	}
@@ -67,11 +69,11 @@ func (s *stubUcon) verify(chain consensus.ChainReader, header *types.Header, par
 	return nil
 }
 
-func (s *stubUcon) VerifyHeader(chain consensus.ChainReader, header *types.Header, seal bool) error {
+func (s *StubUcon) VerifyHeader(chain consensus.ChainReader, header *types.Header, seal bool) error {
 	return s.verify(chain, header, nil, seal)
 }
 
-func (s *stubUcon) VerifyHeaders(chain consensus.ChainReader, headers []*types.Header, seals []bool) (chan<- struct{}, <-chan error) {
+func (s *StubUcon) VerifyHeaders(chain consensus.ChainReader, headers []*types.Header, seals []bool) (chan<- struct{}, <-chan error) {
 	abort := make(chan struct{}, 1)
 	results := make(chan error, len(headers))
 	go func() {
@@ -87,17 +89,17 @@ func (s *stubUcon) VerifyHeaders(chain consensus.ChainReader, headers []*types.H
 	return abort, results
 }
 
-func (s *stubUcon) VerifySeal(chain consensus.ChainReader, header *types.Header) error {
+func (s *StubUcon) VerifySeal(chain consensus.ChainReader, header *types.Header) error {
 	if !sealOK(header) {
 		return errBadSeal
 	}
 	return nil
 }
 
-func (s *stubUcon) HandleMsg(data []byte, receivedAt time.Time) error { return nil }
-func (s *stubUcon) NewChainHead(block *types.Block)                   {}
+func (s *StubUcon) HandleMsg(data []byte, receivedAt time.Time) error { return nil }
+func (s *StubUcon) NewChainHead(block *types.Block)                   {}
 
-func (s *stubUcon) GetLookBackBlockNumber(cp *params.CaravelParams, num *big.Int, lbType params.LookBackType) *big.Int {
+func (s *StubUcon) GetLookBackBlockNumber(cp *params.CaravelParams, num *big.Int, lbType params.LookBackType) *big.Int {
 	lb := uint64(2)
 	if cp != nil {
 		lb = cp.StakeLookBack
@@ -108,7 +110,7 @@ func (s *stubUcon) GetLookBackBlockNumber(cp *params.CaravelParams, num *big.Int
 	return new(big.Int)
 }
 
-func (s *stubUcon) VerifySideChainHeader(cp *params.CaravelParams, seedHeader *types.Header, vldReader state.ValidatorReader, certHeader *types.Header, certVldReader state.ValidatorReader, block *types.Block, parents []*types.Block) error {
+func (s *StubUcon) VerifySideChainHeader(cp *params.CaravelParams, seedHeader *types.Header, vldReader state.ValidatorReader, certHeader *types.Header, certVldReader state.ValidatorReader, block *types.Block, parents []*types.Block) error {
 	l := len(parents)
 	if l <= 0 {
 		return errors.New("no parents")
@@ -124,8 +126,8 @@ func (s *stubUcon) VerifySideChainHeader(cp *params.CaravelParams, seedHeader *t
 	return nil
 }
 
-func (s *stubUcon) VerifyAcHeader(chain consensus.ChainReader, acHeader *types.Header, verifiedAcParents []*types.Header) error {
+func (s *StubUcon) VerifyAcHeader(chain consensus.ChainReader, acHeader *types.Header, verifiedAcParents []*types.Header) error {
 	return errors.New("not an ac header")
 }
 
-var _ consensus.Ucon = (*stubUcon)(nil)
+var _ consensus.Ucon = (*StubUcon)(nil)
